@@ -172,6 +172,7 @@ def parseSite : String → Option Site
   | "rest" => some .rest | "zclient" => some .zrpcClient | "zsunary" => some .zrpcServerUnary
   | "zsstream" => some .zrpcServerStream | "rproc" => some .redisProcess | "rpipe" => some .redisPipeline
   | "sqlexec" => some .sqlx | "sqlprep" => some .sqlx | "sqltx" => some .sqlx | "sqlquery" => some .sqlxQuery
+  | "sqlstexec" => some .sqlx | "sqlstquery" => some .sqlxQuery | "sqlqueryrows" => some .sqlxQuery
   | _ => none
 
 /-- classes of the harness; a `w…`/`gw…` class is the same error wrapped with `%w` -/
@@ -183,10 +184,11 @@ def parseErrClass (c : String) : Option ErrClass :=
   | "brkopen" | "wbrkopen" => some .brkOpen
   | "rnil" | "wrnil" => some .redisNil
   | "norows" | "wnorows" => some .sqlNoRows
-  | "txdone" => some .sqlTxDone
+  | "txdone" | "wtxdone" => some .sqlTxDone
   | "accerr" | "waccerr" => some .sqlAcceptable
-  | "custom" => some .custom
-  | "other" => some .other
+  | "custom" => some (.custom 0)
+  | "custom2" => some (.custom 1)
+  | "other" | "wother" | "conv" => some .other
   | _ =>
     if c.startsWith "gw" then (c.drop 2).toNat?.map .grpc
     else if c.startsWith "g" then (c.drop 1).toNat?.map .grpc
@@ -198,7 +200,9 @@ def parseSiteReq (s : Site) (cls p sf ua : String) : Option SiteReq :=
       (cls.drop 1).toNat?.map fun n => { code := if n = 0 then 200 else n, panics := p = "1" }
     else none
   else
-    (parseErrClass cls).map fun e => { err := e, panics := p = "1", scanFailed := sf = "1", userAccepts := ua = "1" }
+    match parseErrClass cls, ua.toNat? with
+    | some e, some n => some { err := e, panics := p = "1", fromScan := decide (s = .sqlxQuery) && sf = "1", userAccepts := n }
+    | _, _ => none
 
 def siteRetStr : SiteRet → String
   | .same => "same" | .unavailable => "unavail" | .statusUnavailable => "stunavail" | .http503 => "http503" | .ctxErr => "ctx"
@@ -546,7 +550,8 @@ def runNamedLine (sec : Nat) (acc : Report × NState) (l : Line) : Report × NSt
       r := r'
       let implOth := kvNat l.obs "oth" 999999999
       if implOth ≠ modelOth then r := r.mismatch sec l.idx s!"oth={modelOth}" s!"oth={implOth}"
-      if implOth ≠ monOth then
+      -- an observation without `oth=` is unparsable (already a mismatch above), not a verdict on isolation
+      if (kv? l.obs "oth").isSome ∧ implOth ≠ monOth then
         r := r.violation sec l.idx s!"a call on the breaker named {name} changed the window of a breaker with another name: others recorded {monOth} before, {implOth} after"
       if ¬ others.isEmpty then r := r.addCover "named-call-with-other-breakers"
       return (r, ns.set name st')
